@@ -27,6 +27,7 @@ var files = []genFile{
 	{"Opcodes.lean", genOpcodes},
 	{"AbortOps.lean", genAbortOps},
 	{"VmFields.lean", genVmFields},
+	{"Limits.lean", genLimits},
 }
 
 func main() {
